@@ -274,6 +274,7 @@ func c11Check(c c11Case, x *vsched.Exec, initial bool, st *c11State, retd bool, 
 	var prev *bool         // value read at the current open
 	disabled := false      // we wrote 'false' successfully since that open
 	lastSetAfterOpen := "" // last set call since the current open
+	getFailed := false     // the read of the sysctl since the current open failed
 	cancelled := false
 	var attempts []time.Duration
 	var loopStart []bool // attempt i begins a new retry loop (first dial or after a task error)
@@ -293,7 +294,7 @@ func c11Check(c c11Case, x *vsched.Exec, initial bool, st *c11State, retd bool, 
 			}
 		case "open":
 			fmt.Sscanf(e.Detail, "conn=%d", &open)
-			prev, disabled, lastSetAfterOpen = nil, false, ""
+			prev, disabled, lastSetAfterOpen, getFailed = nil, false, "", false
 		case "get":
 			if c.Mode == Monitor {
 				bad("C11:monitor-touches-sysctl", "monitor dialer read the autoconf sysctl")
@@ -301,6 +302,8 @@ func c11Check(c c11Case, x *vsched.Exec, initial bool, st *c11State, retd bool, 
 			if e.Detail != "failed" {
 				v := e.Detail == "true"
 				prev = &v
+			} else {
+				getFailed = true
 			}
 		case "set":
 			if c.Mode == Monitor {
@@ -324,6 +327,17 @@ func c11Check(c c11Case, x *vsched.Exec, initial bool, st *c11State, retd bool, 
 			fmt.Sscanf(e.Detail, "conn=%d", &id)
 			if id == open {
 				open = -1
+			}
+		case "task":
+			// The dial succeeded and the task holds the connection: on an advertising
+			// interface autoconfiguration is off now, or turning it off was attempted and
+			// refused (every connection, also after a re-dial).
+			if c.Mode == Advertise && st != nil {
+				if prev == nil && !getFailed {
+					bad("C11:autoconf-not-disabled", "the task runs on conn=%d but the autoconf sysctl was not even read for this connection", open)
+				} else if prev != nil && *prev && lastSetAfterOpen == "" {
+					bad("C11:autoconf-not-disabled", "the task runs on conn=%d with autoconf still enabled and no attempt to disable it", open)
+				}
 			}
 		case "task-result":
 			taskErrs = append(taskErrs, e.Detail)
